@@ -253,6 +253,17 @@ func judge(c *Case) Verdict {
 	if text != string(c.Raw) {
 		v.Classes = append(v.Classes, "format-differs-from-input")
 	}
+	// Equal must be an equality: a copy differing in exactly one field is not
+	// Equal (otherwise "parses to an Equal URL" would mean little).
+	for i, mutate := range perturbations {
+		w := url.URL{Kind: u.Kind, Protocol: u.Protocol, User: u.User, Host: u.Host, Port: u.Port, Path: u.Path,
+			Environment: u.Environment, Parameters: u.Parameters}
+		mutate(&w)
+		if u.Equal(&w) || w.Equal(u) {
+			v.Violation = fmt.Sprintf("Parse(%q, %v) = %s is Equal to a URL differing in one field (perturbation %d): %s", raw, kind, render(u), i, render(&w))
+			return v
+		}
+	}
 
 	// (4) display form.
 	want := text
@@ -268,4 +279,34 @@ func judge(c *Case) Verdict {
 		return v
 	}
 	return v
+}
+
+// perturbations each change exactly one field of a URL.
+var perturbations = []func(*url.URL){
+	func(w *url.URL) {
+		if w.Kind == url.Kind_Forwarding {
+			w.Kind = url.Kind_Synchronization
+		} else {
+			w.Kind = url.Kind_Forwarding
+		}
+	},
+	func(w *url.URL) {
+		if w.Protocol == url.Protocol_SSH {
+			w.Protocol = url.Protocol_Docker
+		} else {
+			w.Protocol = url.Protocol_SSH
+		}
+	},
+	func(w *url.URL) { w.User += "x" },
+	func(w *url.URL) { w.Host += "x" },
+	func(w *url.URL) { w.Port++ },
+	func(w *url.URL) { w.Path += "x" },
+	func(w *url.URL) {
+		env := map[string]string{"DOCKER_HOST": "perturbed"}
+		for k, val := range w.Environment {
+			env[k] = val + "x"
+		}
+		w.Environment = env
+	},
+	func(w *url.URL) { w.Parameters = map[string]string{"context": "perturbed"} },
 }
